@@ -44,9 +44,10 @@ func dslCanonPanic(s string) string {
 // ---------------------------------------------------------------- fonts
 
 type dslFont struct {
-	n     int
-	names []string // nil: the font has no glyph names
-	cmap  [][2]int // rune, gid
+	n      int
+	names  []string // nil: the font has no glyph names
+	cmap   [][2]int // rune, gid
+	noCmap bool     // the font has no cmap table at all
 }
 
 func (d dslFont) args() string {
@@ -62,6 +63,9 @@ func (d dslFont) args() string {
 	for i, p := range d.cmap {
 		cs[i] = fmt.Sprintf("%d:%d", p[0], p[1])
 	}
+	if d.noCmap {
+		return fmt.Sprintf("n=%d names=%s cmap=none", d.n, ns)
+	}
 	return fmt.Sprintf("n=%d names=%s cmap=%s", d.n, ns, strings.Join(cs, ","))
 }
 
@@ -76,6 +80,9 @@ func dslFontOf(f Fields) *sfnt.Font {
 			}
 		}
 		o.Names = names
+	}
+	if f["cmap"] == "none" {
+		return &sfnt.Font{Outlines: o}
 	}
 	m := cmap.Format12{}
 	for _, p := range f.List("cmap", ",") {
@@ -418,7 +425,7 @@ var dslErrClasses = []string{
 	"invalid glyph id", "consecutive hyphens in glyph list", "invalid range", "hyphenated range not terminated",
 	"rune", "length mismatch", "duplicate mapping", "no substitutions found", "unexpected character",
 	"unterminated string", "unexpected", "expected integer", "invalid integer", "int16 out of range",
-	"expected glyph pair", "duplicate class",
+	"expected glyph pair", "duplicate class", "font has no cmap",
 }
 
 func dslErrClass(msg string) string {
@@ -610,6 +617,11 @@ func genFont(c *Ctx) dslFont {
 	k := 0
 	switch r.Intn(4) {
 	case 0:
+		if r.Bool() {
+			c.Stat("font.cmap", "no cmap table")
+			d.noCmap = true
+			return d
+		}
 		c.Stat("font.cmap", "empty")
 	case 1:
 		k = r.Range(1, 4)
@@ -993,6 +1005,8 @@ func areaDsl(c *Ctx) {
 			d := simpleFont
 			if r.Chance(1, 3) {
 				d = genFont(c)
+			} else if r.Chance(1, 8) {
+				d.cmap, d.noCmap = nil, true
 			}
 			var t string
 			pool := append(append([]string{}, dslSnippets...), dslGposSnippets...)
